@@ -69,7 +69,7 @@ theorem C14_owner (typ : Nat) (answers : List Ans) (want : Bytes) (x : AData)
       | other => rfl
 
 /-- … and the lookup as a whole: data, or the documented error for response codes 1..5. -/
-theorem C14_rcode (U : Universe) (name : Bytes) (typ rc : Nat) (as : List Ans) (hU : U name typ = .msg rc as) :
+theorem C14_rcode (U : Universe) (name : Bytes) (typ rc : Nat) (as : List Ans) (hU : U (trimDot name) typ = .msg rc as) :
     (rc = 0 → resolveOneNC U name typ = .ok (walk typ as (trimDot name), minTTL as)) ∧
     (rc = 1 → resolveOneNC U name typ = .error .format) ∧ (rc = 2 → resolveOneNC U name typ = .error .servfail) ∧
     (rc = 3 → resolveOneNC U name typ = .error .nxdomain) ∧ (rc = 4 → resolveOneNC U name typ = .error .notimp) ∧
